@@ -42,11 +42,22 @@ CLAIMS["C23"] = dict(engine="revise", level="model_checking",
          "judged by the same TLA+ predicate in TLC.",
     note="Trusted: TLC, the harness's mapping of abstract durations/counts to f64/u32 and back (exact for the points used). "
          "Server limits are set through public ServerState fields.")
+CLAIMS["C25"] = dict(engine="filter", level="model_checking",
+    text="Filter.tla states which samples a data change filter must report (trigger Status / StatusValue / StatusValueTimestamp, "
+         "absolute deadband on numeric values, equality otherwise, last-reported value updated only on a report) and which filters "
+         "can never report a value change; TLC enumerates every filter x every DataValue sequence up to the bound, checks the "
+         "specified behaviour against the predicate and emits each case; each case runs on a real monitored item with the real "
+         "DataChangeFilter (one sample per publishing interval, a publish request queued) and the reported/not-reported vector is "
+         "judged by the same predicate in TLC.",
+    note="Trusted: TLC; the harness's reading of 'reported' = DataChangeNotification in that interval's publish response; source and "
+         "server timestamps are written together. Percent deadband semantics are not judged (the server refuses it).")
 NOT_APPLICABLE = {
     "C41": "identity of a third-party YAML serializer over configuration records: no state, transition or case analysis for a TLA+ specification to own, and TLC cannot enumerate the string space that matters (DESIGN.md section 5)",
     "C42": "encode/decode fidelity of serde implementations with identity as the only oracle: outside what a TLA+ model decides (DESIGN.md section 5)",
 }
 ENGINES = [
+    {"name": "filter", "path": "/verif/harness/src/e_filter.rs", "serves_properties": ["C25"],
+     "kind_free_text": "runs each (filter, DataValue sequence) case of spec/Filter.tla on a real monitored item; judged by spec/TraceFilter.tla"},
     {"name": "revise", "path": "/verif/harness/src/e_revise.rs", "serves_properties": ["C23"],
      "kind_free_text": "sends each point of spec/Revise.tla's input space through the real subscription / monitored item services; judged by spec/TraceRevise.tla"},
     {"name": "subs", "path": "/verif/harness/src/e_subs.rs", "serves_properties": ["C21", "C22", "C24", "C26", "C27", "C40"],
